@@ -340,6 +340,10 @@ pub struct ScriptedServe {
     pub node: u8,
     pub id: u64,
     pub plan: HandlerPlan,
+    /// Next hop of a service chain: after its own steps the handler calls it with its context.
+    pub next: Option<tarpc::client::Channel<u64, u64>>,
+    /// Compare `context::current()` with the handler's context (OpenTelemetry layer installed).
+    pub check_current: bool,
 }
 
 pub fn log_handler_start(sim: &Sim, node: u8, id: u64, inc: u32, ctx: &context::Context) {
@@ -389,8 +393,28 @@ impl Serve for ScriptedServe {
                 }
             }
         }
+        if self.check_current {
+            let cur = context::current();
+            sim.log(EvKind::Note { what: "ctx_current", a: inc as i64, b: (sim.ms_of(cur.deadline) - sim.ms_of(ctx.deadline)) });
+            let same_trace = cur.trace_context.trace_id == ctx.trace_context.trace_id;
+            sim.log(EvKind::Note { what: "ctx_current_trace", a: inc as i64, b: same_trace as i64 });
+        }
+        let mut nested: Option<Result<u64, String>> = None;
+        if let Some(next) = &self.next {
+            sim.log(EvKind::Note { what: "nested_invoke", a: self.node as i64, b: inc as i64 });
+            let r = next.call(ctx, req).await;
+            sim.log(EvKind::Note { what: "nested_done", a: self.node as i64, b: inc as i64 });
+            sim.log(EvKind::HandlerPoll { node: self.node, id: self.id, inc });
+            nested = Some(r.map_err(|e| format!("{e}")));
+        }
         guard.finished = true;
         sim.log(EvKind::HandlerFinish { node: self.node, id: self.id, inc });
+        if let Some(r) = nested {
+            return match r {
+                Ok(v) => Ok(v + 1),
+                Err(e) => Err(ServerError::new(std::io::ErrorKind::Other, format!("nested:{e}"))),
+            };
+        }
         if self.plan.err {
             Err(ServerError::new(std::io::ErrorKind::Other, format!("h{req}")))
         } else {
@@ -427,6 +451,19 @@ impl<E> ErrName for tarpc::ChannelError<E> {
 pub struct ServerShared {
     pub handler_tasks: RefCell<Vec<usize>>,
     pub stream_over: Cell<bool>,
+    pub next: RefCell<Option<tarpc::client::Channel<u64, u64>>>,
+    pub check_current: Cell<bool>,
+}
+
+impl ServerShared {
+    pub fn new() -> Rc<Self> {
+        Rc::new(ServerShared {
+            handler_tasks: RefCell::new(Vec::new()),
+            stream_over: Cell::new(false),
+            next: RefCell::new(None),
+            check_current: Cell::new(false),
+        })
+    }
 }
 
 /// The application side of a server channel: polls the request stream, starts (or drops) a
@@ -470,6 +507,8 @@ macro_rules! server_task_impl {
                 }
             }
             shared.stream_over.set(true);
+            // the application is done with this channel: its handle on the next hop goes too
+            shared.next.borrow_mut().take();
             drop(requests);
             sim.log(EvKind::Note { what: "stream_dropped", a: node as i64, b: 0 });
         }
@@ -505,7 +544,14 @@ pub fn start_handler(
             drop(req);
         }
         mode => {
-            let serve = ScriptedServe { sim: sim.clone(), node, id, plan };
+            let serve = ScriptedServe {
+                sim: sim.clone(),
+                node,
+                id,
+                plan,
+                next: shared.next.borrow().clone(),
+                check_current: shared.check_current.get(),
+            };
             let sim2 = sim.clone();
             let limit = match mode {
                 RunMode::DropAfterPolls(k) => Some(k),
@@ -595,7 +641,7 @@ pub fn run(scn: &ServerScn, tape: Tape, _logging: bool) -> RunOutput {
             let link = transport.link();
             let cfg = server::Config { pending_response_buffer: scn.resp_buf };
             let base = BaseChannel::new(cfg, transport);
-            let shared = Rc::new(ServerShared { handler_tasks: RefCell::new(Vec::new()), stream_over: Cell::new(false) });
+            let shared = ServerShared::new();
             let link_m = link.clone();
             let mon: Rc<dyn Fn(bool, bool)> = Rc::new(move |begin, pending| {
                 if begin {
